@@ -47,6 +47,24 @@ class PtsDim:
 PTS = PtsDim()
 
 
+class AnyShape(tuple):
+    """Shape of a value whose (point/cell) axes are not materialised: every
+    integer index is the marker PTS."""
+    def __new__(cls):
+        return super().__new__(cls, (PTS,))
+
+    def __getitem__(self, k):
+        if isinstance(k, slice):
+            return AnyShape()
+        return PTS
+
+    def __radd__(self, o):
+        return tuple(o) + (PTS,)
+
+    def __add__(self, o):
+        return (PTS,) + tuple(o)
+
+
 class Sqrt:
     """sqrt of a polynomial that is not a perfect rational square."""
     def __init__(self, rad):
@@ -817,7 +835,7 @@ class Interp:
         if isinstance(o, StoreArr) and name == "shape" and o.shape:
             return o.shape
         if is_scalar(o) and name == "shape":
-            return (PTS,)
+            return AnyShape()
         if is_scalar(o) and name == "T":
             return o
         if isinstance(o, dict) and name in ("get", "items", "keys", "values"):
@@ -877,6 +895,8 @@ class Interp:
             return self.eval(f.node.body, loc, f.module)
         if isinstance(f, ModRef):
             return self.external(f.name, args, kwargs, node)
+        if isinstance(f, PyFunc):
+            return f.fn(args, kwargs, node)
         if isinstance(f, Builtin):
             return self.builtin(f, args, kwargs, node)
         if isinstance(f, ClassRef):
@@ -1114,6 +1134,13 @@ def to_arr(v):
     if is_scalar(v):
         return v
     raise Unsupported(f"np.array of {type(v).__name__}")
+
+
+class PyFunc:
+    """A callable supplied by a rule (stands for a method whose result the
+    rule models symbolically)."""
+    def __init__(self, fn):
+        self.fn = fn
 
 
 class Builtin:
